@@ -457,7 +457,9 @@ def rules(tier):
             ('C16.R8', c04.r12_output_point_total), ('C16.R9', _loader_complete),
             ('C16.R10', _loader_strip), ('C16.R11', _mask_insertion), ('C16.R12', _flags_reach_grammar), ('C16.R13', _options_forwarded), ('C16.R14', r14_walk_loop_exits),
             # C16-da: the session restore no longer checks the cracking mode
-            ('C16.R15', _shared_rule('c16', 'r15_restore_only_in_probability_order_mode'))]
+            ('C16.R15', _shared_rule('c16', 'r15_restore_only_in_probability_order_mode')),
+            # mutation sweep: random walk positions seeded at index 1
+            ('C16.R16', _shared_rule('plumbing', 'generator_glue'))]
 
 
 META = {
